@@ -46,6 +46,16 @@ def templates(tier):
     add('chain', 'f1 ( ) ; f2 ( ) ; f3 ( )', F(3))
     add('cond-var', 'b ? f1 ( ) : f2 ( )', F(2), {'b': sp(['bool', 'num'], (0,))})
     add('cond-fn', 'f1 ( ) ? f2 ( ) : f3 ( )', {'f1': sp(['bool', 'none']), 'f2': num, 'f3': num})
+    add('cond-bare', 'b ? g1 : g2', {'g1': num, 'g2': num}, {'b': sp(['bool', 'num'], (0,))})
+    add('cond-bare-literal', 'b ? 7 : g1', {'g1': num}, {'b': boo})
+    add('cond-bare-var', 'b ? x : g1', {'g1': num}, {'b': boo, 'x': num})
+    add('list-bare', '[ g1 , g2 , 1 ]', {'g1': num, 'g2': num})
+    add('map-bare', '{ g1 : g2 }', {'g1': num, 'g2': num})
+    add('chain-bare', 'g1 ; g2', {'g1': num, 'g2': num})
+    add('unary-bare', '- g1 + g2 ++', {'g1': num, 'g2': num})
+    add('call-bare-args', 'h ( g1 , g2 )', {'g1': num, 'g2': num, 'h': num})
+    add('in-bare', 'g1 in [ g2 , g3 ]', {'g1': num, 'g2': num, 'g3': num})
+    add('logic-bare', 'g1 && g2', {'g1': boo, 'g2': boo})
     add('cond-nested', 'b ? f1 ( ) : c ? f2 ( ) : f3 ( )', F(3), {'b': boo, 'c': boo})
     add('cond-in-operand', '( b ? f1 ( ) : f2 ( ) ) + f3 ( )', F(3), {'b': boo})
     add('assign', 'x = f1 ( ) + f2 ( ) ; x', F(2))
